@@ -488,12 +488,117 @@ func c35Clones() *explore.Scenario {
 	}
 }
 
+// c35CertShapes: states whose peer certificates and verified chains have shapes the harness handshakes do
+// not produce — several peer certificates, chains through a certificate the peer did not send at that
+// position (a cross-signed intermediate from the pool), several chains. The decrypted state must carry
+// exactly the certificates of the original, peer list and every chain, position by position.
+func c35CertShapes() *explore.Scenario {
+	f := peer.Fix()
+	pool := [][]byte{f.ECDSA.Certificate[0], f.CACert.Raw, f.RSA.Certificate[0], f.Untrusted.Certificate[0], f.Ed25519.Certificate[0]}
+	pick := func(idx ...int) (l [][]byte) {
+		for _, i := range idx {
+			l = append(l, pool[i])
+		}
+		return
+	}
+	peers := [][]int{{0}, {0, 1}, {0, 1, 2}, {0, 1, 2, 3, 4}}
+	chainSets := [][][]int{
+		nil,
+		{{0}},
+		{{0, 1}},
+		{{0, 3}},
+		{{0, 3}, {0, 1}},
+		{{0, 1}, {0, 3}},
+		{{0, 2, 3}},
+		{{0, 4, 3, 2}, {0, 1}},
+		{{0, 1, 2}, {0, 2, 1}, {0, 3}},
+	}
+	return &explore.Scenario{
+		Name: "certificate-shapes-roundtrip",
+		Run: func(x *explore.X) (r explore.Result) {
+			states := c35Corpus()
+			if len(states) < 6 {
+				r.Violate("INFRA|c35-corpus", "only %d session states captured", len(states))
+				return
+			}
+			// one state per captured configuration (the Extra variants are the first scenario's business)
+			var bases []capturedState
+			for i := 0; i < len(states); i += 3 {
+				bases = append(bases, states[i])
+			}
+			st := bases[x.Choose("state", len(bases))]
+			pi := x.Choose("peer-certificates", len(peers))
+			ci := x.Choose("verified-chains", len(chainSets))
+			wantPeer := pick(peers[pi]...)
+			var wantChains [][][]byte
+			for _, ch := range chainSets[ci] {
+				wantChains = append(wantChains, pick(ch...))
+			}
+			what := fmt.Sprintf("%s peer=%v chains=%v", st.name, peers[pi], chainSets[ci])
+			enc, err := tls.VerifSessionStateWithCerts(st.bytes, wantPeer, wantChains)
+			if err != nil {
+				r.Violate("INFRA|c35-shape", "%s: %v", what, err)
+				return
+			}
+			ss, err := tls.ParseSessionState(enc)
+			if err != nil {
+				r.Violate("C35|shape-unparsable|"+errClass(err), "%s: the state's own encoding does not parse: %v", what, err)
+				return
+			}
+			cfg := &tls.Config{Time: peer.FixedTime}
+			cfg.SetSessionTicketKeys([][32]byte{keyN(1), keyN(2)})
+			var cs tls.ConnectionState
+			ticket, err := cfg.EncryptTicket(cs, ss)
+			if err != nil {
+				r.Violate("C35|encrypt-error", "%s: %v", what, err)
+				return
+			}
+			back, err := cfg.DecryptTicket(ticket, cs)
+			if err != nil || back == nil {
+				r.Violate("C35|roundtrip-nil", "%s: DecryptTicket(EncryptTicket(s)) = (%v, %v)", what, back, err)
+				return
+			}
+			r.Nontrivial = true
+			r.Class = what
+			gotPeer, gotChains := tls.VerifSessionStateCerts(back)
+			same := func(a, b [][]byte) bool {
+				if len(a) != len(b) {
+					return false
+				}
+				for i := range a {
+					if !bytes.Equal(a[i], b[i]) {
+						return false
+					}
+				}
+				return true
+			}
+			if !same(gotPeer, wantPeer) {
+				r.Violate("C35|roundtrip-differs|peer-certificates", "%s: the decrypted state's peer certificates differ from the original's", what)
+			}
+			if len(gotChains) != len(wantChains) {
+				r.Violate("C35|roundtrip-differs|chain-count", "%s: %d verified chains, the original has %d", what, len(gotChains), len(wantChains))
+			} else {
+				for i := range wantChains {
+					if !same(gotChains[i], wantChains[i]) {
+						r.Violate("C35|roundtrip-differs|verified-chain", "%s: verified chain %d differs from the original's", what, i)
+					}
+				}
+			}
+			if bb, _ := back.Bytes(); !bytes.Equal(bb, enc) {
+				r.Violate("C35|roundtrip-differs", "%s: decrypted state serialises differently from the original", what)
+			}
+			r.Obs = fmt.Sprintf("peer=%d|chains=%d|viol=%d", len(wantPeer), len(wantChains), len(r.Viol))
+			return
+		},
+	}
+}
+
 func c35Scenarios(thorough bool) []*explore.Scenario {
 	d := 3
 	if thorough {
 		d = 5
 	}
-	return []*explore.Scenario{c35RoundTrip(thorough), c35Rotation(d), c35KeyDerivation(), c35Forged(), c35Clones(), c35IssuedByHandshakes()}
+	return []*explore.Scenario{c35RoundTrip(thorough), c35Rotation(d), c35KeyDerivation(), c35Forged(), c35Clones(), c35IssuedByHandshakes(), c35CertShapes()}
 }
 
 func init() {
